@@ -136,5 +136,8 @@ def run(ctx, rep):
     c15.symbol_walker_rules(ctx, rep, "C16")
     rep.rule("V5", "inherits C15 V5: find_symbol asks the predicate in the walker's order from the first symbol on and returns the first match")
     c15.wrapper_rules(ctx, rep, "C16")
+    rep.rule("LX", "lexical agreement (C03 A10, re-evaluated here): the property quantifies over documents - token classes, their priorities, the keyword rule, comments and white space must be the reference ones (a changed comment / number / keyword regex silently drops or merges members)")
+    import lexical
+    lexical.rules(ctx, rep, "C16", {"trivia", "classes", "priority", "keywords", "tokenizer"})
     rep.assumptions += ["TB-1 rustc MIR", "TB-4 tabulator", "the name range itself is exact (C04 W2)"]
     rep.not_decided.append("line / column arithmetic for multi-byte text and CRLF inside the line-col crate (TB-3)")
